@@ -432,6 +432,9 @@ func genGatedCase(p *prng, maxLen int) []string {
 		switch k := p.intn(100); {
 		case k < 62:
 			id := 1 + p.intn(3)
+			if maxLen > 20 && p.chance(1, 3) {
+				id = 1 + p.intn(5) // up to five groups open at once (C17)
+			}
 			if p.chance(1, 25) {
 				id = 0
 			}
